@@ -390,12 +390,21 @@ func init() {
 					cfg.Variants = 14
 				}
 				withMembership(cfg, r, 0.3)
+				if name == "C03" && r.Bool(0.4) {
+					cfg.Synthetic = true
+				}
 				if name == "C15" {
 					mixStores(cfg, r, 0.3)
 				}
 				return cfg
 			},
 			run: func(c *Cluster, spec *runSpec) {
+				if c.cfg.Synthetic {
+					c.synthetic = true
+					c.buildSynthDag(NewRNG(Mix(c.seed, 0x73796e)))
+					c.dagReplay(c.cfg.Variants)
+					return
+				}
 				c.genesis()
 				c.drive(spec)
 				c.finalChecks(spec)
@@ -429,6 +438,23 @@ func init() {
 			if c.recorder != nil && len(c.recorder.ops) > 0 {
 				c.runStoreEngine(c.recorder.ops)
 			}
+		},
+	}
+}
+
+func init() {
+	// SYN: synthetic histories only (tuning / sensitivity experiments; not a registered check)
+	profiles["SYN"] = &profile{
+		config: func(r *RNG, thorough bool) *RunConfig {
+			cfg := baseConfig("C01", r, thorough)
+			cfg.Synthetic = true
+			cfg.Variants = 6
+			return cfg
+		},
+		run: func(c *Cluster, spec *runSpec) {
+			c.synthetic = true
+			c.buildSynthDag(NewRNG(Mix(c.seed, 0x73796e)))
+			c.dagReplay(c.cfg.Variants)
 		},
 	}
 }
